@@ -172,6 +172,14 @@ impl<'a> Tr<'a> {
                     let r = self.stmts_k(rest, &env3, hint, k)?;
                     return Ok(let_in(&c, true, &format!("(fun{} =>\n{})", binders, body.s), &r));
                 }
+                // `let x = e.saturating_as();` / `.into()` without annotation: the type comes from the first use of x as an
+                // argument of a configured function
+                let ann = match (&ann, pat, &*init.expr) {
+                    (None, Pat::Ident(pi), Expr::MethodCall(mc)) if (mc.method == "saturating_as" || mc.method == "into") && mc.turbofish.is_none() => {
+                        self.infer_from_use(&pi.ident.to_string(), rest)
+                    }
+                    _ => ann,
+                };
                 let fa = self.fn_assigned.clone();
                 if let Some((env2, lets)) = self.alias_let(pat, &init.expr, env, &fa)? {
                     let mut r = self.stmts_k(rest, &env2, hint, k)?;
@@ -231,6 +239,51 @@ impl<'a> Tr<'a> {
         let simple = matches!(pat, Pat::Ident(_) | Pat::Wild(_));
         let rest = self.stmts_k(&body.stmts, &env2, None, &|tr, _v| tr.for_unrolled(pat, elems, i + 1, body, env, k))?;
         Ok(let_in(&ps, simple, &v.s, &rest))
+    }
+
+    /// the parameter type of the first configured function that gets the variable `name` as a direct argument
+    fn infer_from_use(&self, name: &str, rest: &[Stmt]) -> Option<Ty> {
+        struct V<'t> {
+            name: String,
+            fns: &'t Vec<FnInfo>,
+            found: Option<Ty>,
+        }
+        impl<'ast, 't> syn::visit::Visit<'ast> for V<'t> {
+            fn visit_expr_method_call(&mut self, m: &'ast ExprMethodCall) {
+                self.check(&m.method.to_string(), m.args.iter().collect());
+                syn::visit::visit_expr_method_call(self, m);
+            }
+            fn visit_expr_call(&mut self, c: &'ast ExprCall) {
+                if let Expr::Path(p) = &*c.func {
+                    if let Some(s) = p.path.segments.last() {
+                        self.check(&s.ident.to_string(), c.args.iter().collect());
+                    }
+                }
+                syn::visit::visit_expr_call(self, c);
+            }
+        }
+        impl<'t> V<'t> {
+            fn check(&mut self, fname: &str, args: Vec<&Expr>) {
+                if self.found.is_some() {
+                    return;
+                }
+                for (i, a) in args.iter().enumerate() {
+                    if let Expr::Path(p) = a {
+                        if p.path.is_ident(&self.name) {
+                            let tys: Vec<&Ty> = self.fns.iter().filter(|f| f.name == fname && f.params.len() > i).map(|f| &f.params[i].1).collect();
+                            if !tys.is_empty() && tys.iter().all(|t| *t == tys[0]) {
+                                self.found = Some(tys[0].clone());
+                            }
+                        }
+                    }
+                }
+            }
+        }
+        let mut v = V { name: name.to_string(), fns: &self.t.fns, found: None };
+        for st in rest {
+            syn::visit::Visit::visit_stmt(&mut v, st);
+        }
+        v.found
     }
 
     fn body_k(&mut self, b: &Body, env: &Env, hint: Option<&Ty>, k: K) -> R<String> {
